@@ -160,6 +160,7 @@ func c01probes() []c01probe {
 		}
 		tf := func(n string, a *m.Attr, req bool, tag int) *m.Field { return &m.Field{Name: n, Attr: a, Required: req, Tag: tag} }
 		add("C01-grpc-only-design-example-main", gd(nil, false, &m.Method{Name: "m", GRPC: &m.GRPCEndpoint{}}))
+		add("C01-example-grpc-server-streamchain-unused", gd(nil, true, &m.Method{Name: "m", Streaming: "result", Result: m.Prim(m.UInt32), GRPC: &m.GRPCEndpoint{}}))
 		add("C01-grpc-response-metadata", gd(nil, true, &m.Method{Name: "m", Result: rt.Obj(tf("name", str, true, 1), tf("other", str, false, 2)), GRPC: &m.GRPCEndpoint{Headers: []m.Mapping{{Attr: "name"}}}}))
 		add("C01-gen-hangs-grpc-recursive-type", gd([]*m.UserType{{Name: "Item", Var: "v1", Attr: rt.Obj(tf("children", &m.Attr{Type: &m.Type{Kind: m.Array, Elem: m.UserRef("Item")}}, false, 1))}}, true,
 			&m.Method{Name: "m", Payload: m.UserRef("Item"), GRPC: &m.GRPCEndpoint{}}))
